@@ -1,0 +1,22 @@
+// Copyright (C) The Arvados Authors. All rights reserved.
+//
+// SPDX-License-Identifier: Apache-2.0
+
+//go:build verif
+// +build verif
+
+// Machine-checked contracts (read by /verif/bin/govc; never compiled into
+// normal builds).  See /verif/DESIGN.md section 3 for the language.
+
+package manifest
+
+//@ func firstBlock property C10 arith checked
+//@   requires len(offsets) >= 2
+//@   requires forall i, j int :: 0 <= i && i <= j && j < len(offsets) ==> offsets[i] <= offsets[j]
+//@   ensures  result == -1 || (0 <= result && result < len(offsets)-1 && offsets[result] <= rangeStart && rangeStart < offsets[result+1])
+//@   ensures  offsets[0] <= rangeStart && rangeStart < offsets[len(offsets)-1] ==> result != -1
+//@   loop 1: invariant 0 <= lo && lo <= i && i < hi && hi <= len(offsets)-1
+//@   loop 1: invariant i == (hi+lo)/2 && blockStart == offsets[i] && blockEnd == offsets[i+1]
+//@   loop 1: invariant offsets[0] <= old(rangeStart) && old(rangeStart) < offsets[len(offsets)-1] ==> offsets[lo] <= rangeStart && rangeStart < offsets[hi]
+//@   loop 1: invariant rangeStart == old(rangeStart) && offsets == old(offsets)
+//@   loop 1: decreases hi - lo
